@@ -36,6 +36,16 @@ def digest(v) -> str:
     return hashlib.sha1(repr(values.canon(v)).encode("utf-8", "backslashreplace")).hexdigest()
 
 
+class RawLit(str):
+    """a text that is written into the program source as it is (inside quotes), not as an escape sequence"""
+
+    def __repr__(self):
+        return "RawLit(" + str.__repr__(self) + ")"
+
+
+RAW_LITERALS = (RawLit("a\tb"), RawLit("\tlead"), RawLit("trail\t"), RawLit("x\x0cy"), RawLit("\u00e9\t\u65e5\u672c"), RawLit("two  spaces   three"),
+                RawLit("\ufeffbom inside"), RawLit("nb\u00a0sp"))
+
 NOISE = ["print", "stdout_write", "dunder_stdout", "os_write1", "os_write2", "os_system", "stderr_write", "os_read0", "stdin_read", "child_reads_stdin"]
 
 
@@ -64,7 +74,7 @@ def gen_program(rng, gen, allow_raise=True, big=False):
         elif k < 0.9:
             stmts.append(("try_close",))
         elif k < 0.96:
-            stmts.append(("send_const", rng.choice((1, "text", b"bytes", (1, 2), None, True, 2.5))))
+            stmts.append(("send_const", rng.choice((1, "text", b"bytes", (1, 2), None, True, 2.5) + RAW_LITERALS)))
         else:
             stmts.append(("sub", rng.randrange(1000)))
     raise_at = None
@@ -132,7 +142,10 @@ def render_lines(prog, indent=""):
             L.append("except OSError:")
             L.append("    channel.send('close refused')")
         elif kind == "send_const":
-            L.append(f"channel.send({st[1]!r})")
+            if isinstance(st[1], RawLit):
+                L.append("channel.send('" + str(st[1]) + "')")  # the characters themselves, not escapes
+            else:
+                L.append(f"channel.send({st[1]!r})")
         elif kind == "sub":
             L.append("_c = channel.gateway.newchannel()")
             L.append("channel.send(_c)")
@@ -277,7 +290,7 @@ def predict(prog, kwargs_digests=True, py2=False):
         elif kind == "try_close":
             out.append("close refused")
         elif kind == "send_const":
-            out.append(st[1])
+            out.append(str(st[1]) if isinstance(st[1], RawLit) else st[1])
         elif kind == "sub":
             out.append(("subchannel", "Channel", ("sub", st[1])))
         elif kind == "raise":
